@@ -21,7 +21,7 @@
         steps of phases 2, 4/5, 8/9, 11 (which is exactly where the three recorded findings live)
         and the reconstruction (Lagrange) argument for the group key. *)
 From Coq Require Import ZArith NArith List Bool Permutation.
-From KV Require Import Common.Verdict Model.C01 Proofs.C01.
+From KV Require Import Common.Verdict Model.C01 Model.C01_crash Proofs.C01 Proofs.C01_crash.
 Import ListNotations.
 Open Scope N_scope.
 
@@ -154,3 +154,73 @@ Theorem exchange_delivers_partial :
                 /\ (p <> 3 -> ~ In (msg_sender x) (ia (mark_inactive c (actives p rc') rc'))).
 Proof. exact Proofs.C01.exchange_delivers. Qed.
 Print Assumptions exchange_delivers_partial.
+
+(* ---- 4. END-TO-END agreement for CRASH (fail-silent) adversaries ----
+   The adversary class (Model/C01_crash.v): the adversary holds the seats [cs]; each of them runs the
+   honest phase functions on its own polynomials and with its own arrival orders up to its crash
+   phase [cr_from] and publishes nothing from that phase on.  [crash_adversary c honest cs sc] says
+   that [sc] is exactly the script such seats publish (computed by the joint run of all seats);
+   [crash_orders_ok] that every arrival order of every live seat is a permutation of the messages
+   published in the phase; [seats_ok] that honest and crashing seats together are the n seats of
+   the group, each with polynomials of t+1 coefficients.  Every group size, threshold, modulus,
+   polynomials, crash phases and arrival interleaving. *)
+
+(* stages (i)+(ii): no seat crashes in phases 4..7 (after distributing shares, before publishing its
+   public key share points); in particular no faults at all, or seats silent from the first phase.
+   ALL honest members finish, with the inactive list [crash_inactive] (the crashed seats, in the
+   order they fell silent), no disqualified member, and the group key [crash_key] (the sum of the
+   constant coefficients of the seats not silent before phase 4).  No bound on the number of
+   crashing seats is needed for this class. *)
+Theorem crash_run_early_or_late :
+  forall c honest cs sc,
+    length (ops c) = N.to_nat (gn c) -> (0 < q c)%Z -> seats_ok c honest cs ->
+    (forall x, In x cs -> cr_from x <= 3 \/ 7 < cr_from x) ->
+    crash_adversary c honest cs sc -> crash_orders_ok c honest cs sc ->
+    let r := run {| i_cfg := c; i_honest := honest; i_script := sc |} in
+    map fst r = map h_id honest /\
+    forall m o, In (m, o) r ->
+      exists sh ps, o = Finished (crash_inactive c (crash_from cs)) []
+                                 (crash_key c (crash_from cs) (coef_of (honest ++ map cr_member cs))) sh ps.
+Proof. exact Proofs.C01_crash.crash_run_early_or_late. Qed.
+Print Assumptions crash_run_early_or_late.
+
+(* ... hence the property: same key, same IA+DQ set, no honest member marked, nobody fails *)
+Theorem agreement_crash_early_or_late :
+  forall c honest cs sc,
+    length (ops c) = N.to_nat (gn c) -> (0 < q c)%Z -> seats_ok c honest cs ->
+    (forall x, In x cs -> cr_from x <= 3 \/ 7 < cr_from x) ->
+    crash_adversary c honest cs sc -> crash_orders_ok c honest cs sc ->
+    let i := {| i_cfg := c; i_honest := honest; i_script := sc |} in
+    agreement (run i) /\ never_marked (honest_ids i) (run i)
+    /\ (forall m o, In (m, o) (run i) -> o <> Failed) /\ map fst (run i) = honest_ids i.
+Proof. exact Proofs.C01_crash.agreement_crash_early_or_late. Qed.
+Print Assumptions agreement_crash_early_or_late.
+
+(* stage (i) on its own: no faults at all (every seat honest) *)
+Theorem agreement_no_faults :
+  forall c honest sc,
+    length (ops c) = N.to_nat (gn c) -> (0 < q c)%Z -> seats_ok c honest [] ->
+    crash_adversary c honest [] sc -> crash_orders_ok c honest [] sc ->
+    let r := run {| i_cfg := c; i_honest := honest; i_script := sc |} in
+    map fst r = map h_id honest /\
+    forall m o, In (m, o) r ->
+      exists sh ps, o = Finished [] [] (crash_key c (crash_from []) (coef_of (honest ++ []))) sh ps.
+Proof.
+  intros c honest sc H1 H2 H3 H4 H5.
+  exact (Proofs.C01_crash.no_faults_run' c honest sc H1 H2 H3 H4 H5).
+Qed.
+Print Assumptions agreement_no_faults.
+
+(* non-vacuity: n = 5, t = 2, BN254 order, honest seats 2,3,4, seat 1 silent from phase 1, seat 5
+   silent from phase 8: the script is in the class and [run] gives the stated outcome *)
+Theorem crash_early_or_late_nonvacuous :
+  seats_ok wit_cfg ex_honest (ex_cs 8) /\ (forall x, In x (ex_cs 8) -> cr_from x <= 3 \/ 7 < cr_from x)
+  /\ crash_adversary wit_cfg ex_honest (ex_cs 8) (ex_script 8)
+  /\ crash_orders_ok wit_cfg ex_honest (ex_cs 8) (ex_script 8)
+  /\ adv7 (ex_script 8) = [wrap wit_cfg (Points 5 1 wit_a5)] /\ adv8 (ex_script 8) = []
+  /\ run {| i_cfg := wit_cfg; i_honest := ex_honest; i_script := ex_script 8 |}
+     = [(2, Finished [1; 5] [] 95 701 [(3, 1304%Z); (4, 2107%Z)]);
+        (3, Finished [1; 5] [] 95 1304 [(2, 701%Z); (4, 2107%Z)]);
+        (4, Finished [1; 5] [] 95 2107 [(2, 701%Z); (3, 1304%Z)])].
+Proof. exact Proofs.C01_crash.crash_early_or_late_example. Qed.
+Print Assumptions crash_early_or_late_nonvacuous.
